@@ -731,7 +731,12 @@ def oracle_c07(rr: Any, spec: Dict[str, Any]) -> "tuple[List[Violation], int]":
                 v.append(Violation("is-err-wrong", f"delivery {d} returned but result has is_err={res.is_err}, error={res.error!r}"))
             want = {"tok": info["tok"], "v": beh.get("value")}
             got = res.return_value
-            if beh.get("ret_model"):
+            if "ret_raw" in beh:
+                rw = beh["ret_raw"]
+                rw = tuple(rw["__tuple__"]) if isinstance(rw, dict) and "__tuple__" in rw else rw
+                if type(got) is not type(rw) or got != rw or repr(got) != repr(rw):
+                    v.append(Violation("return-value-wrong", f"delivery {d}: the function returned {rw!r}, the stored return_value is {got!r}"))
+            elif beh.get("ret_model"):
                 cls_name = "_ReqModel" if beh["ret_model"] == "model" else "_Unit"
                 if type(got).__name__ != cls_name or getattr(got, "name", None) != info["tok"]:
                     v.append(Violation("return-value-wrong", f"delivery {d}: the function returned a {cls_name} object, the stored return_value is "
